@@ -105,7 +105,7 @@ def physical(sc, name):
     discharge = [z3.RealVal(0)] * T
     # the storage's active steps from its own window (harness), not from the mapping
     from ..refmap import _ts
-    s_, e_ = _ts(st.start, tg.tz), _ts(st.end, tg.tz)
+    s_, e_ = _ts(lift.ctor_arg(st, 'start'), tg.tz), _ts(lift.ctor_arg(st, 'end'), tg.tz)
     active = [t for t in range(T) if (s_ is None or tg.timepoints[t] >= s_) and (e_ is None or tg.timepoints[t] < e_)]
     physical.mapped = sorted(set(int(t) for t in mine['time_step']))
     seen = set()
@@ -123,13 +123,13 @@ def physical(sc, name):
         else:
             charge[t] = charge[t] + z3.If(x < 0, -x, 0)
             discharge[t] = discharge[t] + z3.If(x > 0, x, 0)
-    eff = zl(st.eff_in)
+    eff = zl(lift.ctor_arg(st, 'eff_in'))
     level = []
-    cur = zl(st.start_level)
+    cur = zl(lift.ctor_arg(st, 'start_level'))
     dtv = [sym.ratval(sym.snap_fraction(float(v))) for v in tg.dt]
     for t in range(T):
         if t in active:
-            cur = cur + eff * charge[t] - discharge[t] + zl(st.inflow) * dtv[t]
+            cur = cur + eff * charge[t] - discharge[t] + zl(lift.ctor_arg(st, 'inflow')) * dtv[t]
         level.append(cur)
     return st, active, charge, discharge, level, dtv
 
@@ -179,7 +179,7 @@ def run_case(case_id, tier, seed, shape, kw, level, opts):
         if not active:
             rec.note('storage inactive')
             continue
-        size, end = zl(st.size), zl(st.end_level)
+        size, end = zl(lift.ctor_arg(st, 'size')), zl(lift.ctor_arg(st, 'end_level'))
         coarse = bool(opts.get('coarse'))
         steps = active
         if coarse:
@@ -196,7 +196,7 @@ def run_case(case_id, tier, seed, shape, kw, level, opts):
         # region and, inside it, a reproducing witness is reported as KNOWN-FINDING (a VIOLATION if the entry is not open)
         trig = None
         if 'msd' in opts:
-            trig = z3.Or(zl(st.start_level) != 0, zl(st.inflow) != 0)
+            trig = z3.Or(zl(lift.ctor_arg(st, 'start_level')) != 0, zl(lift.ctor_arg(st, 'inflow')) != 0)
         no_trig = [z3.Not(trig)] if trig is not None else []
         rec.twin(P + '/level_hi', assume + no_trig, level_t[steps[0]] <= size - 1)
         for t in steps:
@@ -217,8 +217,8 @@ def run_case(case_id, tier, seed, shape, kw, level, opts):
                           info=dict(info0, kind='end', t=steps[-1]), known='KF-C05-msd' if kf_msd else None)
         if not coarse:
             for t in active:
-                rec.prove(P + '/rate_in/%d' % t, assume, charge[t] <= zl(st.cap_in) * dtv[t], form='Q1', info=dict(info0, kind='rate_in', t=t))
-                rec.prove(P + '/rate_out/%d' % t, assume, discharge[t] <= zl(st.cap_out) * dtv[t], form='Q1', info=dict(info0, kind='rate_out', t=t))
+                rec.prove(P + '/rate_in/%d' % t, assume, charge[t] <= zl(lift.ctor_arg(st, 'cap_in')) * dtv[t], form='Q1', info=dict(info0, kind='rate_in', t=t))
+                rec.prove(P + '/rate_out/%d' % t, assume, discharge[t] <= zl(lift.ctor_arg(st, 'cap_out')) * dtv[t], form='Q1', info=dict(info0, kind='rate_out', t=t))
         # reporting
         iv = sc.out['internal_variables']
         T = sc.sh.tg.T
@@ -238,7 +238,7 @@ def run_case(case_id, tier, seed, shape, kw, level, opts):
         if 'msd' in opts:
             lim = float(opts['msd'])
             dts = [float(v) for v in sc.sh.tg.dt]
-            trig2 = z3.Or(zl(st.start_level) != 0, zl(st.inflow) != 0)
+            trig2 = z3.Or(zl(lift.ctor_arg(st, 'start_level')) != 0, zl(lift.ctor_arg(st, 'inflow')) != 0)
             for i0, t0 in enumerate(active):
                 acc = 0.0
                 win = []
@@ -308,8 +308,8 @@ def observe(case, kwargs, env, rq):
     if rq.get('kind') == 'replay':
         name = kwargs.get('opts', {}).get('name', 'sto')
         st = _storage(sc.sh.portf, name)
-        o['storage'] = dict(size=float(st.size), start=float(st.start_level), end=float(st.end_level), eff=float(st.eff_in),
-                            inflow=float(st.inflow), cap_in=float(st.cap_in), cap_out=float(st.cap_out))
+        o['storage'] = dict(size=float(lift.ctor_arg(st, 'size')), start=float(lift.ctor_arg(st, 'start_level')), end=float(lift.ctor_arg(st, 'end_level')), eff=float(lift.ctor_arg(st, 'eff_in')),
+                            inflow=float(lift.ctor_arg(st, 'inflow')), cap_in=float(lift.ctor_arg(st, 'cap_in')), cap_out=float(lift.ctor_arg(st, 'cap_out')))
         o['dt'] = [float(v) for v in sc.sh.tg.dt]
     return o
 
